@@ -418,4 +418,22 @@ def clientSingle (c : Cfg α) (d : RespDelivery) : ClientObs α :=
 def clientReceive (c : Cfg α) (respStream : Bool) (d : RespDelivery) : ClientObs α :=
   if respStream then clientStream c d else clientSingle c d
 
+/-! ### the same with `max_encoding_message_size(l)` configured (client `Grpc` / server `Grpc`) -/
+
+def encCfgLim (c : Cfg α) (server : Bool) (l : Nat) : EncCfg := { encCfg c server with maxSize := some l }
+
+/-- `clientRequest` of a client `Grpc` configured with `max_encoding_message_size(l)` -/
+def clientRequestLim (c : Cfg α) (l npolls : Nat) (r : CallReq α) : HttpReq :=
+  { headers := Metadata.requestWire r.md,
+    body := Enc.run c.cd (encCfgLim c false l) npolls Enc.init (srcOf r.msgs) }
+
+/-- `handlerResponse` of a server `Grpc` configured with `max_encoding_message_size(l)` -/
+def handlerResponseLim (c : Cfg α) (l npolls : Nat) (respStream : Bool) (sc : Script α) : HttpResp :=
+  match sc.early with
+  | some st => statusIntoHttp st
+  | none =>
+    { status := 200,
+      headers := Metadata.responseWire sc.initMd,
+      body := (Enc.run c.cd (encCfgLim c true l) npolls Enc.init (handlerSrc respStream sc)).map (decorate c sc) }
+
 end Call
